@@ -1,5 +1,5 @@
 (* C17 - codon choice and translation follow the codon table in use. *)
-From VV Require Import Model.Base Model.Pattern Model.CodonTable Spec.StdCode Proofs.CodonTableProofs Proofs.DefaultTableProofs Generated.DefaultTable.
+From VV Require Import Model.Base Model.Pattern Model.CodonTable Spec.StdCode Proofs.CodonTableProofs Proofs.DefaultTableProofs Generated.DefaultTable Proofs.LoadTableProofs.
 From Coq Require Import Sorting.Permutation.
 Local Open Scope Z_scope.
 
@@ -55,6 +55,17 @@ Proof. exact loader_rejects. Qed.
 Example C17_default_rows_64 : length default_rows = 64%nat.
 Proof. vm_compute. reflexivity. Qed.
 
+(* whole files (load_codon_table_rows): a table is loaded line by line - as many rows as lines, each the parse of its line, in file order - and
+   one defective line anywhere (empty, short, bad codon / amino acid / frequency / rank) refuses the file: nothing is skipped, nothing ends
+   the reading early *)
+Theorem C17_table_loaded_line_by_line : forall lines t, load_table lines = Ok t ->
+  length t = length lines /\ Forall2 (fun l r => parse_row (fst l) (snd l) = Ok r) lines t.
+Proof. exact load_table_rows. Qed.
+
+Theorem C17_defective_line_refuses_table : forall lines l,
+  In l lines -> is_ok (parse_row (fst l) (snd l)) = false -> is_ok (load_table lines) = false.
+Proof. exact load_table_defective_line. Qed.
+
 Print Assumptions C17_default_is_standard_code.
 Print Assumptions C17_default_is_standard_code_minus.
 Print Assumptions C17_top_is_min_rank.
@@ -63,3 +74,5 @@ Print Assumptions C17_synonymous_exact.
 Print Assumptions C17_row_order_irrelevant.
 Print Assumptions C17_rc_table_transport.
 Print Assumptions C17_loader_rejects.
+Print Assumptions C17_table_loaded_line_by_line.
+Print Assumptions C17_defective_line_refuses_table.
